@@ -664,7 +664,8 @@ func parentMain(fl *evid.Flags) int {
 				run.Inconclusive("transition mode: mutation never delivered alone as its event: " + mu)
 			}
 		}
-		for _, c := range []string{"cases_in_exec_mode:ipset", "cases_in_exec_mode:iptables", "single_mutation_pod-add_first_event_has_ip", "transitions_via_events", "transitions_via_resync", "flows_compared-after-events",
+		for _, c := range []string{"cases_with_upper_case_hostname_override", "cases_in_exec_mode:ipset", "cases_in_exec_mode:iptables",
+			"single_mutation_pod-add_first_event_has_ip", "transitions_via_events", "transitions_via_resync", "flows_compared-after-events",
 			"flows_compared-after-events+resync", "flows_compared-after-resync"} {
 			if run.Counter(c) == 0 {
 				run.Inconclusive("transition mode: never observed: " + c)
@@ -680,7 +681,8 @@ func parentMain(fl *evid.Flags) int {
 			run.Inconclusive("mode never exercised: " + m)
 		}
 	}
-	for _, c := range []string{"cases_in_exec_mode:ipset", "cases_in_exec_mode:iptables", "exec_commands:ipset list <set>",
+	for _, c := range []string{"cases_with_upper_case_hostname_override", "cases_in_exec_mode:ipset", "cases_in_exec_mode:iptables",
+		"exec_commands:ipset list <set>",
 		"exec_commands:iptables-restore", "faults_injected_ipset", "faults_injected_iptables", "fault_in_sync", "fault_in_event",
 		"full_syncs", "foreign_objects_compared", "restarts", "perturbations_applied",
 		"planted_stale_policy-chain", "events_policy-update", "events_pod-update", "events_pod-delete", "events_policy-delete"} {
